@@ -22,7 +22,8 @@ from .pattern import Conv1dGeneric, Conv2dGeneric, LinearGeneric, \
 
 
 def _params_conv1d_generic(spec):
-    cin = spec['in_channels']
+    # (a grouped convolution connects each output channel to in_channels / groups inputs)
+    cin = spec['in_channels'] / spec['groups']
     cout = spec['out_channels']
     k = spec['kernel_size']
     cost = cout * (cin * k[0] + (1 if spec['_parameters']['bias'] is not None else 0))
@@ -30,7 +31,8 @@ def _params_conv1d_generic(spec):
 
 
 def _params_conv2d_generic(spec):
-    cin = spec['in_channels']
+    # (a grouped convolution connects each output channel to in_channels / groups inputs)
+    cin = spec['in_channels'] / spec['groups']
     cout = spec['out_channels']
     k = spec['kernel_size']
     cost = cout * (cin * k[0] * k[1] + (1 if spec['_parameters']['bias'] is not None else 0))
